@@ -2105,6 +2105,12 @@ func areaShape(c *Ctx) {
 		g.emit(sc, "mark filtering set family")
 	}
 	g.extensionFamily()
+	for i := 0; i < shpKeepCacheCount; i++ {
+		sc, what := shpKeepCacheCase(i)
+		c.Stat("obligation: two nested lookups, same flags, different filtering sets, both history orders", what[:9])
+		g.emit(sc, "filter cache family")
+	}
+	g.countMismatchFamily()
 	for c.evals < c.N && timeouts < maxTimeouts {
 		g.wild = false
 		g.gpos = false
@@ -2653,4 +2659,280 @@ func (g *shpGen) extensionFamily() {
 		g.emit(sc, "gtab.Read (hand-built bytes with extension lookups)")
 	}
 	g.gpos = false
+}
+
+// ================================================================ families added after the round-3 seeds, part 2
+//
+// (d) TWO nested lookups with the same flags word (UseMarkFilteringSet) and different mark
+//     filtering sets, triggered by different sequences of one history in both orders (a filter
+//     cached per Context under the flags word alone makes the second call depend on the first);
+// (e) subtables whose count field disagrees with the size of the coverage table next to it
+//     (count < |coverage|, count > |coverage|), read from bytes and applied to sequences that hit
+//     the LAST covered glyphs: the reader has to establish `readerShapedLL` (cov.Prune).
+
+const shpKeepCacheCount = 6 * 4 * 2
+
+func shpKeepCacheCase(idx int) (*shpCase, string) {
+	pf := shpTrailingFormats[idx%6]
+	idx /= 6
+	pairs := [][2]uint16{{0, 1}, {1, 0}, {2, 1}, {0, 3}}
+	pair := pairs[idx%4]
+	idx /= 4
+	reverse := idx%2 == 1
+	si, sj := shpFamGdef.MarkGlyphSets[pair[0]], shpFamGdef.MarkGlyphSets[pair[1]]
+	var onlyI, onlyJ glyph.ID
+	for _, m := range []glyph.ID{fM1, fM2, fM3} {
+		if si[m] && !sj[m] && onlyI == 0 {
+			onlyI = m
+		}
+		if sj[m] && !si[m] && onlyJ == 0 {
+			onlyJ = m
+		}
+	}
+	fl := gtab.LookupFlags(gtab.UseMarkFilteringSet)
+	// rule for A: "A onlyJ C" runs lookup 1 (set i skips onlyJ: A+C -> ligature 7)
+	// rule for B: "B onlyI C" runs lookup 2 (set j skips onlyI: B+C -> ligature 8)
+	ruleA, tp := shpMkContext(pf, []glyph.ID{fA, onlyJ, fC}, []gtab.SeqLookup{{SequenceIndex: 0, LookupListIndex: 1}})
+	ruleB, _ := shpMkContext(pf, []glyph.ID{fB, onlyI, fC}, []gtab.SeqLookup{{SequenceIndex: 0, LookupListIndex: 2}})
+	ll := gtab.LookupList{
+		shpFamLookup(tp, 0, 0, ruleA, ruleB),
+		shpFamLookup(4, fl, pair[0], &gtab.Gsub4_1{Cov: coverage.Table{fA: 0}, Repl: [][]gtab.Ligature{{{In: []glyph.ID{fC}, Out: 7}}}}),
+		shpFamLookup(4, fl, pair[1], &gtab.Gsub4_1{Cov: coverage.Table{fB: 0}, Repl: [][]gtab.Ligature{{{In: []glyph.ID{fC}, Out: 8}}}}),
+	}
+	sa := shpFamSeq(fA, onlyJ, fC)
+	sb := shpFamSeq(fB, onlyI, fC)
+	both := shpFamSeq(fA, onlyJ, fC, fB, onlyI, fC)
+	hist := [][]glyph.Info{sa, sb, both}
+	if reverse {
+		hist = [][]glyph.Info{sb, sa, shpFamSeq(fB, onlyI, fC, fA, onlyJ, fC)}
+	}
+	c := &shpCase{ll: ll, gd: shpFamGdef, lookups: []gtab.LookupIndex{0}, hist: hist}
+	return c, fmt.Sprintf("parent %d sets %d/%d reverse=%v", pf, pair[0], pair[1], reverse)
+}
+
+// shpRankCov: coverage table of the glyphs with indices in glyph order (as in a font file).
+func shpRankCov(gl []glyph.ID) coverage.Table {
+	s := append([]glyph.ID(nil), gl...)
+	sort.Slice(s, func(i, j int) bool { return s[i] < s[j] })
+	c := coverage.Table{}
+	for i, x := range s {
+		c[x] = i
+	}
+	return c
+}
+
+// countMismatchFamily emits family (e).
+func (g *shpGen) countMismatchFamily() {
+	r := g.r
+	bases := []glyph.ID{1, 2, 3, 4, 5}
+	marks := []glyph.ID{10, 11, 12, 13}
+	kinds := []struct {
+		kind  int
+		which int // for the mark attachment subtables: 0 = first coverage, 1 = second coverage
+		gpos  bool
+	}{{12, 0, false}, {21, 0, false}, {31, 0, false}, {41, 0, false}, {51, 0, false}, {52, 0, false}, {61, 0, false}, {62, 0, false},
+		{102, 0, true}, {103, 0, true}, {105, 0, true}, {106, 0, true}, {106, 1, true}, {107, 0, true}, {107, 1, true}, {51, 0, true}}
+	for _, kd := range kinds {
+		for _, delta := range []int{-1, 1, 2} {
+			for _, k := range []int{1, 2, 3} {
+				if k+delta < 1 {
+					continue
+				}
+				// `k` entries in the arrays, `k+delta` glyphs in the coverage table
+				covOf := func(pool []glyph.ID, n int) (coverage.Table, []glyph.ID) {
+					gl := append([]glyph.ID(nil), pool[:n]...)
+					return shpRankCov(gl), gl
+				}
+				vr := func() *gtab.GposValueRecord { return &gtab.GposValueRecord{XAdvance: funit.Int16(r.Range(1, 90))} }
+				anch := func() anchor.Table {
+					return anchor.Table{X: funit.Int16(r.Range(1, 300)), Y: funit.Int16(r.Range(1, 300))}
+				}
+				acts := []gtab.SeqLookup{{SequenceIndex: 0, LookupListIndex: 1}}
+				var st gtab.Subtable
+				var tp uint16
+				var hit []glyph.ID // glyphs the sequences should contain
+				var patch func(b []byte) []byte
+				switch kd.kind {
+				case 12:
+					cov, gl := covOf(bases, k+delta)
+					st, tp, hit = &gtab.Gsub1_2{Cov: cov, SubstituteGlyphIDs: make([]glyph.ID, k)}, 1, gl
+					for i := range st.(*gtab.Gsub1_2).SubstituteGlyphIDs {
+						st.(*gtab.Gsub1_2).SubstituteGlyphIDs[i] = glyph.ID(14 + i)
+					}
+				case 21:
+					cov, gl := covOf(bases, k+delta)
+					s := &gtab.Gsub2_1{Cov: cov}
+					for i := 0; i < k; i++ {
+						s.Repl = append(s.Repl, []glyph.ID{glyph.ID(14 + i), 15})
+					}
+					st, tp, hit = s, 2, gl
+				case 31:
+					cov, gl := covOf(bases, k+delta)
+					s := &gtab.Gsub3_1{Cov: cov}
+					for i := 0; i < k; i++ {
+						s.Alternates = append(s.Alternates, []glyph.ID{glyph.ID(14 + i)})
+					}
+					st, tp, hit = s, 3, gl
+				case 41:
+					cov, gl := covOf(bases, k+delta)
+					s := &gtab.Gsub4_1{Cov: cov}
+					for i := 0; i < k; i++ {
+						s.Repl = append(s.Repl, []gtab.Ligature{{In: []glyph.ID{gl[0]}, Out: 7}, {In: nil, Out: 8}})
+					}
+					st, tp, hit = s, 4, gl
+				case 51:
+					cov, gl := covOf(bases, k+delta)
+					s := &gtab.SeqContext1{Cov: cov}
+					for i := 0; i < k; i++ {
+						s.Rules = append(s.Rules, []*gtab.SeqRule{{Input: nil, Actions: acts}})
+					}
+					st, tp, hit = s, 5, gl
+				case 52:
+					// the rule sets are indexed by class: classes up to k+delta-1, k rule sets
+					cov, gl := covOf(bases, k+delta)
+					cd := classdef.Table{}
+					for i, x := range gl {
+						cd[x] = uint16(i)
+					}
+					s := &gtab.SeqContext2{Cov: cov, Input: cd}
+					for i := 0; i < k; i++ {
+						s.Rules = append(s.Rules, []*gtab.ClassSeqRule{{Input: nil, Actions: acts}})
+					}
+					st, tp, hit = s, 5, gl
+				case 61:
+					cov, gl := covOf(bases, k+delta)
+					s := &gtab.ChainedSeqContext1{Cov: cov}
+					for i := 0; i < k; i++ {
+						s.Rules = append(s.Rules, []*gtab.ChainedSeqRule{{Actions: acts}})
+					}
+					st, tp, hit = s, 6, gl
+				case 62:
+					cov, gl := covOf(bases, k+delta)
+					cd := classdef.Table{}
+					for i, x := range gl {
+						cd[x] = uint16(i)
+					}
+					s := &gtab.ChainedSeqContext2{Cov: cov, Backtrack: cd, Input: cd, Lookahead: cd}
+					for i := 0; i < k; i++ {
+						s.Rules = append(s.Rules, []*gtab.ChainedClassSeqRule{{Actions: acts}})
+					}
+					st, tp, hit = s, 6, gl
+				case 102:
+					cov, gl := covOf(bases, k+delta)
+					s := &gtab.Gpos1_2{Cov: cov}
+					for i := 0; i < k; i++ {
+						s.Adjust = append(s.Adjust, vr())
+					}
+					st, tp, hit = s, 1, gl
+				case 103:
+					// consistent pair table over max(k, k+delta) first glyphs; the pair set count is patched to k
+					n := k + delta
+					if k > n {
+						n = k
+					}
+					s := gtab.Gpos2_1{}
+					for _, x := range bases[:n] {
+						s[glyph.Pair{Left: x, Right: 1}] = &gtab.PairAdjust{First: vr()}
+					}
+					if k != n {
+						patch = func(b []byte) []byte { b[8], b[9] = byte(k>>8), byte(k); return b }
+					} else {
+						kk := k + delta
+						patch = func(b []byte) []byte { b[8], b[9] = byte(kk>>8), byte(kk); return b }
+					}
+					st, tp, hit = s, 2, bases[:n]
+				case 105:
+					cov, gl := covOf(bases, k+delta)
+					s := &gtab.Gpos3_1{Cov: cov}
+					for i := 0; i < k; i++ {
+						s.Records = append(s.Records, gtab.EntryExitRecord{Entry: anch(), Exit: anch()})
+					}
+					st, tp, hit = s, 3, gl
+				case 106, 107:
+					nm, nb := k, k
+					if kd.which == 0 {
+						nm = k + delta
+					} else {
+						nb = k + delta
+					}
+					pool2 := bases
+					if kd.kind == 107 {
+						pool2 = []glyph.ID{11, 12, 13, 10} // mark-to-mark: both coverages hold marks
+					}
+					mcov, mgl := covOf(marks, min(nm, 4))
+					bcov, bgl := covOf(pool2, min(nb, 4))
+					var marr []markarray.Record
+					for i := 0; i < k; i++ {
+						marr = append(marr, markarray.Record{Class: 0, Table: anch()})
+					}
+					var rows [][]anchor.Table
+					for i := 0; i < k; i++ {
+						rows = append(rows, []anchor.Table{anch()})
+					}
+					if kd.kind == 106 {
+						st, tp = &gtab.Gpos4_1{MarkCov: mcov, BaseCov: bcov, MarkArray: marr, BaseArray: rows}, 4
+					} else {
+						st, tp = &gtab.Gpos6_1{Mark1Cov: mcov, Mark2Cov: bcov, Mark1Array: marr, Mark2Array: rows}, 6
+					}
+					hit = append(append([]glyph.ID(nil), bgl...), mgl...)
+				}
+				if kd.gpos && kd.kind >= 51 && kd.kind <= 63 {
+					tp += 2
+				}
+				what := fmt.Sprintf("kind %d/%d gpos=%v: %d entries, %d covered", kd.kind, kd.which, kd.gpos, k, k+delta)
+				data, ok := func() (b []byte, ok bool) {
+					defer func() {
+						if recover() != nil {
+							b, ok = nil, false
+						}
+					}()
+					return gtab.VerifSubtableEncode(st), true
+				}()
+				if !ok {
+					g.c.Stat("obligation: count field vs coverage size", "encoder refuses: "+what[:12])
+					continue
+				}
+				if patch != nil {
+					data = patch(data)
+				}
+				// lookup 1: what the nested actions of the contextual members run
+				var second gtab.Subtable = &gtab.Gsub1_1{Cov: coverage.Set{1: true, 2: true, 3: true, 4: true, 5: true}, Delta: 13}
+				extType, rtp, tpn := uint16(7), gtab.Type(gtab.TypeGsub), 1
+				if kd.gpos {
+					second = &gtab.Gpos1_1{Cov: coverage.Table{1: 0, 2: 1, 3: 2, 4: 3, 5: 4}, Adjust: vr()}
+					extType, rtp, tpn = 9, gtab.TypeGpos, 2
+				}
+				raw := []shpRawLookup{{tp: tp, subs: []shpRawSub{{data: data}}}, {tp: 1, subs: []shpRawSub{{data: gtab.VerifSubtableEncode(second)}}}}
+				if r.Bool() {
+					raw[0].subs[0].ext = 1 // the same through an extension record
+				}
+				table := shpBuildGtab(extType, raw)
+				// every ordered pair of the interesting glyphs, the LAST covered ones first
+				pool := append([]glyph.ID(nil), hit...)
+				for i, j := 0, len(pool)-1; i < j; i, j = i+1, j-1 {
+					pool[i], pool[j] = pool[j], pool[i]
+				}
+				pool = append(pool, 6)
+				var gids []int
+				var seq []glyph.Info
+				for _, y := range pool {
+					for _, x := range pool {
+						gids = append(gids, int(y), int(x))
+					}
+				}
+				for i, x := range gids {
+					seq = append(seq, glyph.Info{GID: glyph.ID(x), Text: []rune{rune(97 + i%26)}, Advance: funit.Int16(10 * (i % 7))})
+				}
+				out := g.c.Case(Direct, "shape.readsafe", fmt.Sprintf("tp=%d seq=%s file=%s", tpn, ints(gids), hx(table)), true)
+				info, err := gtab.Read(bytes.NewReader(table), rtp)
+				if err != nil {
+					g.c.Stat("obligation: count field vs coverage size", "rejected by the reader: "+what)
+					continue
+				}
+				g.c.Stat("obligation: count field vs coverage size", "read ("+out+"): "+what)
+				sc := &shpCase{ll: info.LookupList, gd: shpFamGdef, lookups: []gtab.LookupIndex{0}, hist: [][]glyph.Info{seq}}
+				g.emit(sc, "gtab.Read (count field vs coverage size)")
+			}
+		}
+	}
 }
